@@ -4,6 +4,7 @@ C15 : the raw-data parser never reads outside its buffer and never loops forever
 (model: `Model/RawParser.lean`; helper lemmas: `Proofs/RawSafe.lean`).
 -/
 namespace Pybes3Verif.Raw
+open Pybes3Verif.Raw.Safe
 
 /-! ### Group S — C15 : the parser never reads outside its buffer, never loops forever -/
 
